@@ -17,7 +17,8 @@ RULE = ('Arrays of rank 1-4 (1-6 thorough), extents 1-7, every form of dims / di
         'calls incl. out-of-range axes, the get_dim / get_dim_units / get_dim_name accessors after every step, label and (label, index...) '
         'indexing, stack arrays with True / full / partial / too-long labels; dim vectors compared bit-exactly '
         'with the PrimFloat model; non-trivial = distinct cases with at least one pair/number entry or a stack')
-MODELLED = ["numpy's start + step*np.arange(n) is written out elementwise in binary64 (PrimFloat)", 'bulk data is not modelled here']
+MODELLED = ["numpy's start + step*np.arange(n) is written out elementwise in binary64 (PrimFloat)", 'bulk data is not modelled here',
+            'a setter called with the axis counted from the end (n - rank) is evaluated in the model at the axis n it denotes (Python indexing)']
 ASSUMPTIONS = ['integer dim entries within int64']
 PARTIAL = 'float ramps: proved are the length and that the values are those of the stated binary64 formula; equality with the exact rational ramp is proved for integers only'
 
